@@ -222,6 +222,77 @@ fn slice_entry<T: Copy + Default + 'static, const M: usize>(b: &Bump<M>, s: &W6S
                 .map(|r| (r.as_ptr() as usize, r.len()))
                 .map_err(|_| ())
         })),
+        // huge counts. Entry points with a callback get one that stops the fill at its first call
+        // (so a wrongly accepted count neither loops for ever nor writes anything); the others are
+        // called as they are when the element size is not zero (a correct crate refuses before
+        // writing; a zero-sized fill of 2^60 elements would be legal and endless, so not those)
+        (Entry6::FillWith, fallible) | (Entry6::TryFillWith, fallible) | (Entry6::FillIter, fallible) | (Entry6::TryFillIter, fallible) => {
+            let ran = std::cell::Cell::new(false);
+            let stop = || -> T {
+                let _g = simalloc::harness_scope();
+                ran.set(true);
+                std::panic::resume_unwind(Box::new("<injected>"))
+            };
+            struct Stopper<'a, T, F: Fn() -> T>(usize, &'a F);
+            impl<'a, T, F: Fn() -> T> Iterator for Stopper<'a, T, F> {
+                type Item = T;
+                fn next(&mut self) -> Option<T> {
+                    Some((self.1)())
+                }
+                fn size_hint(&self) -> (usize, Option<usize>) {
+                    (self.0, Some(self.0))
+                }
+            }
+            impl<'a, T, F: Fn() -> T> ExactSizeIterator for Stopper<'a, T, F> {}
+            let r = call6(0, || match (s.entry, fallible) {
+                (Entry6::FillWith, false) => {
+                    let r = b.alloc_slice_fill_with(n, |_| stop());
+                    Ok((r.as_ptr() as usize, r.len()))
+                }
+                (Entry6::FillWith, true) => b.try_alloc_slice_fill_with(n, |_| stop()).map(|r| (r.as_ptr() as usize, r.len())).map_err(|_| ()),
+                (Entry6::FillIter, false) => {
+                    let r = b.alloc_slice_fill_iter(Stopper(n, &stop));
+                    Ok((r.as_ptr() as usize, r.len()))
+                }
+                (Entry6::FillIter, true) => b.try_alloc_slice_fill_iter(Stopper(n, &stop)).map(|r| (r.as_ptr() as usize, r.len())).map_err(|_| ()),
+                (Entry6::TryFillWith, _) => b.alloc_slice_try_fill_with::<T, _, ()>(n, |_| Ok(stop())).map(|r| (r.as_ptr() as usize, r.len())).map_err(|_| ()),
+                _ => b
+                    .alloc_slice_try_fill_iter::<T, _, ()>(Stopper(n, &stop).map(Ok::<T, ()>))
+                    .map(|r| (r.as_ptr() as usize, r.len()))
+                    .map_err(|_| ()),
+            });
+            if ran.get() {
+                let impossible = std::mem::size_of::<T>().checked_mul(n).map(|t| t > isize::MAX as usize - 4096 || t > MACHINE_BYTES).unwrap_or(true);
+                if impossible {
+                    Got::Panic(PanicClass::Other, format!("CAPACITY-SHORT the initialiser was run for {} elements of {} bytes", n, std::mem::size_of::<T>()))
+                } else {
+                    Got::Err
+                }
+            } else {
+                conv(r)
+            }
+        }
+        (Entry6::FillCopy, false) if std::mem::size_of::<T>() > 0 => conv(call6(0, || {
+            let r = b.alloc_slice_fill_copy(n, v);
+            Ok((r.as_ptr() as usize, r.len()))
+        })),
+        (Entry6::FillCopy, true) if std::mem::size_of::<T>() > 0 => conv(call6(0, || {
+            b.try_alloc_slice_fill_copy(n, v).map(|r| (r.as_ptr() as usize, r.len())).map_err(|_| ())
+        })),
+        (Entry6::FillClone, false) if std::mem::size_of::<T>() > 0 => conv(call6(0, || {
+            let r = b.alloc_slice_fill_clone(n, &v);
+            Ok((r.as_ptr() as usize, r.len()))
+        })),
+        (Entry6::FillClone, true) if std::mem::size_of::<T>() > 0 => conv(call6(0, || {
+            b.try_alloc_slice_fill_clone(n, &v).map(|r| (r.as_ptr() as usize, r.len())).map_err(|_| ())
+        })),
+        (Entry6::FillDefault, false) if std::mem::size_of::<T>() > 0 => conv(call6(0, || {
+            let r = b.alloc_slice_fill_default::<T>(n);
+            Ok((r.as_ptr() as usize, r.len()))
+        })),
+        (Entry6::FillDefault, true) if std::mem::size_of::<T>() > 0 => conv(call6(0, || {
+            b.try_alloc_slice_fill_default::<T>(n).map(|r| (r.as_ptr() as usize, r.len())).map_err(|_| ())
+        })),
         (Entry6::SliceCopyZst, fallible) if std::mem::size_of::<T>() == 0 => {
             let src: &[T] = unsafe { std::slice::from_raw_parts(std::ptr::NonNull::<T>::dangling().as_ptr(), n) };
             if fallible {
@@ -247,8 +318,20 @@ fn vec_entry<T: Copy + Default + 'static>(b: &'static Bump, s: &W6Script) -> Got
             v.push(T::default());
         });
     }
+    // a vector of zero-sized elements can really be usize::MAX - 1 long: the element *count* is
+    // then what a reservation can overflow
+    let zst_near_max = esz == 0
+        && s.state == State6::NonEmpty
+        && matches!(s.entry, Entry6::VecReserve | Entry6::VecReserveExact | Entry6::VecTryReserve | Entry6::VecTryReserveExact);
+    if zst_near_max {
+        unsafe { v.set_len(usize::MAX - 1) };
+    }
     let cap_start = v.capacity();
     let conv_v = |r: Result<Option<()>, (PanicClass, String)>, v: &BVec<'static, T>| match r {
+        Ok(Some(())) if zst_near_max && n >= 2 => Got::Panic(
+            PanicClass::Other,
+            format!("CAPACITY-SHORT a vector of usize::MAX - 1 zero-sized elements accepted a reservation for {} more", n),
+        ),
         Ok(Some(())) => Got::Ok {
             addr: v.as_ptr() as usize,
             bytes: if esz == 0 { Some(0) } else { v.capacity().checked_mul(esz) },
@@ -732,13 +815,26 @@ pub enum W7Script {
     /// growth workload: no faults, no limit
     Growth { min_align: usize, ctor_cap: usize, reqs: Vec<(usize, usize)>, placement: Placement },
     /// Vec with reserved capacity accepts that many elements without moving
-    VecPromise { esize: ES, n: usize, via_reserve: bool, pre: usize, noise: Vec<usize> },
+    VecPromise {
+        esize: ES,
+        n: usize,
+        via_reserve: bool,
+        pre: usize,
+        noise: Vec<usize>,
+        /// how the promised elements arrive: 0 push, 1 try_reserve(1)+push, 2 reserve(1)+push,
+        /// 3 try_reserve_exact(1)+push, 4 reserve_exact(1)+push, 5 extend_from_slice_copy(&[x]),
+        /// 6 extend(once), 7 try_reserve(all that is left)+push
+        #[serde(default)]
+        fill_via: u8,
+    },
     /// push-only growth
     VecGrowth {
         esize: ES,
         n: usize,
         noise_every: usize,
-        /// 0 push, 1 reserve(1)+push, 2 try_reserve(1)+push, 3 extend(one), 4 insert(0, ..), 5 extend_from_slice(&[x])
+        /// 0 push, 1 reserve(1)+push, 2 try_reserve(1)+push, 3 extend(one), 4 insert(0, ..), 5 extend_from_slice(&[x]),
+        /// 6 extend_from_slice_copy(&[x]), 7 extend_from_slices_copy(&[&[x]]), 8 resize(len + 1, x),
+        /// 9 append(one-element vector), 10 splice(len.., once), 11 extend(&[x]) by reference
         #[serde(default)]
         via: u8,
     },
@@ -746,7 +842,13 @@ pub enum W7Script {
     /// fallible initialisers that fail again and again while nothing is stored: the arena must
     /// not keep asking the global allocator (every failed value is rewound)
     FailingInits { min_align: usize, ctor_cap: usize, n: usize, big: bool, try_: bool, successes_every: usize },
-    StrGrowth { n: usize },
+    StrGrowth {
+        n: usize,
+        /// 0 push, 1 push_str("z"), 2 insert(0,'z') (n capped), 3 extend(once char), 4 extend(["z"]),
+        /// 5 write!(.., "z"), 6 += "z", 7 insert_str(len, "z")
+        #[serde(default)]
+        via: u8,
+    },
 }
 
 fn ck7(viol: &mut Vec<Violation>, name: &str, oracle: &str, facts: &str, detail: String) {
@@ -926,7 +1028,7 @@ fn cap_exact<const M: usize>(cap: usize, parts: &[usize], viol: &mut Vec<Violati
     let _ = simalloc::arena_call(0, move || drop(b));
 }
 
-fn vec_promise<T: Copy + Default + 'static>(bump: &'static Bump, n: usize, via_reserve: bool, pre: usize, noise: &[usize], viol: &mut Vec<Violation>, stats: &mut Stats) {
+fn vec_promise<T: Copy + Default + 'static>(bump: &'static Bump, n: usize, via_reserve: bool, pre: usize, noise: &[usize], fill_via: u8, viol: &mut Vec<Violation>, stats: &mut Stats) {
     let esz = std::mem::size_of::<T>();
     let n = n.min((2 << 20) / esz.max(1));
     let mut v: BVec<'static, T> = if via_reserve {
@@ -975,7 +1077,32 @@ fn vec_promise<T: Copy + Default + 'static>(bump: &'static Bump, n: usize, via_r
                 let _ = b_call(|| bump.alloc_layout(Layout::from_size_align(s, 1).unwrap()));
             }
         }
-        let _ = b_call(|| v.push(T::default()));
+        let left = n - i;
+        let _ = b_call(|| match fill_via {
+            1 => {
+                let _ = v.try_reserve(1);
+                v.push(T::default())
+            }
+            2 => {
+                v.reserve(1);
+                v.push(T::default())
+            }
+            3 => {
+                let _ = v.try_reserve_exact(1);
+                v.push(T::default())
+            }
+            4 => {
+                v.reserve_exact(1);
+                v.push(T::default())
+            }
+            5 => v.extend_from_slice_copy(&[T::default()]),
+            6 => v.extend(std::iter::once(T::default())),
+            7 => {
+                let _ = v.try_reserve(left);
+                v.push(T::default())
+            }
+            _ => v.push(T::default()),
+        });
         if esz > 0 && (v.as_ptr() as usize != buf || v.capacity() != cap) {
             ck7(
                 viol,
@@ -1020,6 +1147,21 @@ fn vec_growth<T: Copy + Default + 'static>(bump: &'static Bump, n: usize, noise_
             3 => v.extend(std::iter::once(T::default())),
             4 => v.insert(0, T::default()),
             5 => v.extend_from_slice(&[T::default()]),
+            6 => v.extend_from_slice_copy(&[T::default()]),
+            7 => v.extend_from_slices_copy(&[&[T::default()]]),
+            8 => {
+                let l = v.len();
+                v.resize(l + 1, T::default())
+            }
+            9 => {
+                let mut one = bumpalo::vec![in bump; T::default()];
+                v.append(&mut one)
+            }
+            10 => {
+                let l = v.len();
+                drop(v.splice(l.., std::iter::once(T::default())))
+            }
+            11 => v.extend(&[T::default()]),
             _ => v.push(T::default()),
         });
         if r.is_err() {
@@ -1027,7 +1169,20 @@ fn vec_growth<T: Copy + Default + 'static>(bump: &'static Bump, n: usize, noise_
         }
         if v.capacity() != cap {
             if cap > 0 && v.capacity() < 2 * cap {
-                let how = ["push", "reserve(1)+push", "try_reserve(1)+push", "extend", "insert", "extend_from_slice"][via.min(5) as usize];
+                let how = [
+                    "push",
+                    "reserve(1)+push",
+                    "try_reserve(1)+push",
+                    "extend",
+                    "insert",
+                    "extend_from_slice",
+                    "extend_from_slice_copy",
+                    "extend_from_slices_copy",
+                    "resize",
+                    "append",
+                    "splice",
+                    "extend-by-ref",
+                ][via.min(11) as usize];
                 ck7(viol, "vec", "vec-growth-not-geometric", how, format!("capacity {} -> {} at len {} growing by {}", cap, v.capacity(), v.len(), how));
                 break;
             }
@@ -1079,12 +1234,12 @@ pub fn exec_w7(s: &W7Script, k: usize) -> WReport {
                 let ptr: *mut Bump = Box::into_raw(Box::new(b));
                 let bump: &'static Bump = unsafe { &*ptr };
                 match s {
-                    W7Script::VecPromise { esize, n, via_reserve, pre, noise } => match esize {
-                        ES::B1 => vec_promise::<u8>(bump, *n, *via_reserve, *pre, noise, &mut viol, &mut stats),
-                        ES::B3 => vec_promise::<Pad<3>>(bump, *n, *via_reserve, *pre, noise, &mut viol, &mut stats),
-                        ES::B8 => vec_promise::<P8>(bump, *n, *via_reserve, *pre, noise, &mut viol, &mut stats),
-                        ES::B24 => vec_promise::<P24>(bump, *n, *via_reserve, *pre, noise, &mut viol, &mut stats),
-                        _ => vec_promise::<Pad<64>>(bump, *n, *via_reserve, *pre, noise, &mut viol, &mut stats),
+                    W7Script::VecPromise { esize, n, via_reserve, pre, noise, fill_via } => match esize {
+                        ES::B1 => vec_promise::<u8>(bump, *n, *via_reserve, *pre, noise, *fill_via, &mut viol, &mut stats),
+                        ES::B3 => vec_promise::<Pad<3>>(bump, *n, *via_reserve, *pre, noise, *fill_via, &mut viol, &mut stats),
+                        ES::B8 => vec_promise::<P8>(bump, *n, *via_reserve, *pre, noise, *fill_via, &mut viol, &mut stats),
+                        ES::B24 => vec_promise::<P24>(bump, *n, *via_reserve, *pre, noise, *fill_via, &mut viol, &mut stats),
+                        _ => vec_promise::<Pad<64>>(bump, *n, *via_reserve, *pre, noise, *fill_via, &mut viol, &mut stats),
                     },
                     W7Script::VecGrowth { esize, n, noise_every, via } => match esize {
                         ES::B1 => vec_growth::<u8>(bump, *n, *noise_every, *via, &mut viol, &mut stats),
@@ -1124,13 +1279,29 @@ pub fn exec_w7(s: &W7Script, k: usize) -> WReport {
                         }
                         std::mem::forget(st);
                     }
-                    W7Script::StrGrowth { n } => {
+                    W7Script::StrGrowth { n, via } => {
+                        let n = &(if *via == 2 { (*n).min(3000) } else { *n });
                         let mut st = BString::new_in(bump);
                         let mut cap = st.capacity();
                         let mut reallocs = 0;
                         stats.hit("w7_str_growth");
                         for _ in 0..*n {
-                            let _ = b_call(|| st.push('z'));
+                            let _ = b_call(|| match via {
+                                1 => st.push_str("z"),
+                                2 => st.insert(0, 'z'),
+                                3 => st.extend(std::iter::once('z')),
+                                4 => st.extend(["z"].iter().copied()),
+                                5 => {
+                                    use std::fmt::Write;
+                                    let _ = write!(st, "z");
+                                }
+                                6 => st += "z",
+                                7 => {
+                                    let l = st.len();
+                                    st.insert_str(l, "z")
+                                }
+                                _ => st.push('z'),
+                            });
                             if st.capacity() != cap {
                                 if cap > 0 && st.capacity() < 2 * cap {
                                     ck7(&mut viol, "string", "string-growth-not-geometric", "", format!("{} -> {}", cap, st.capacity()));
@@ -1228,6 +1399,7 @@ pub fn gen_w7(seed: u64) -> W7Script {
             via_reserve: r.chance(1, 2),
             pre: r.usize_below(20),
             noise: (0..r.usize_below(4)).map(|_| r.usize_below(600)).collect(),
+            fill_via: if r.chance(1, 2) { 0 } else { r.below(8) as u8 },
         },
         8 => {
             if r.chance(1, 2) {
@@ -1235,10 +1407,10 @@ pub fn gen_w7(seed: u64) -> W7Script {
                     esize: *r.pick(&[ES::B1, ES::B3, ES::B8, ES::B24, ES::B4096]),
                     n: [10usize, 100, 1000, 10_000, 100_000][r.usize_below(5)],
                     noise_every: [0usize, 1, 3, 50][r.usize_below(4)],
-                    via: r.below(6) as u8,
+                    via: r.below(12) as u8,
                 }
             } else {
-                W7Script::StrGrowth { n: [10usize, 1000, 100_000][r.usize_below(3)] }
+                W7Script::StrGrowth { n: [10usize, 1000, 100_000][r.usize_below(3)], via: r.below(8) as u8 }
             }
         }
         _ => W7Script::StrPromise {
